@@ -77,6 +77,7 @@ VARIABLES
   dropped,                        \* number of new-key Sets refused because the buffer was full
   zeroVictim,                     \* the latest admission evicted a key whose accounted cost was 0 (coverage goals)
   rejVict,                        \* some admission was turned away after it had evicted something (coverage goals)
+  refusedRw,                      \* a re-write with another expiration was vetoed by ShouldUpdate while the entry was resident (coverage goals)
   swSkip,                         \* hashes whose live entry the expiry sweep examined and left alone (coverage goals)
   lowered,                        \* some overwrite lowered an accounted cost (coverage goals)
   swept0,                         \* hashes removed by the sweep while their accounted cost was 0 (coverage goals)
@@ -88,7 +89,7 @@ VARIABLES
 implVars == <<store, em, lastCleaned, pol, used, maxCost, door, cnt, buf, sendq, apc, areg, sweepQ,
               sweepNow, pc, creg, now, tickPending, running, stopq, closed, met>>
 histVars == <<nextVal, ops, exitCnt, evictCnt, rejectCnt, accepted, refused, valKey, delOblig,
-              waitCover, mustMiss, clearOwed, gets, dropped, zeroVictim, rejVict, swSkip, lowered, swept0, lastUpd, clrOverlap, raised, bad>>
+              waitCover, mustMiss, clearOwed, gets, dropped, zeroVictim, rejVict, swSkip, refusedRw, lowered, swept0, lastUpd, clrOverlap, raised, bad>>
 vars == <<implVars, histVars>>
 
 ZeroMet == [hit |-> 0, miss |-> 0, keyAdd |-> 0, keyUpdate |-> 0, keyEvict |-> 0, costAdd |-> 0,
@@ -119,7 +120,7 @@ Init ==
   /\ exitCnt = [v \in Vals |-> 0] /\ evictCnt = [v \in Vals |-> 0] /\ rejectCnt = [v \in Vals |-> 0]
   /\ accepted = {} /\ refused = {} /\ valKey = [v \in Vals |-> 0]
   /\ delOblig = {} /\ waitCover = [c \in Clients |-> {}] /\ mustMiss = {}
-  /\ clearOwed = [c \in Clients |-> {}] /\ gets = 0 /\ dropped = 0 /\ zeroVictim = FALSE /\ rejVict = FALSE /\ swSkip = {} /\ lowered = FALSE /\ swept0 = {} /\ lastUpd = [old |-> 0, new |-> 0] /\ clrOverlap = FALSE /\ raised = FALSE /\ bad = {}
+  /\ clearOwed = [c \in Clients |-> {}] /\ gets = 0 /\ dropped = 0 /\ zeroVictim = FALSE /\ rejVict = FALSE /\ swSkip = {} /\ refusedRw = FALSE /\ lowered = FALSE /\ swept0 = {} /\ lastUpd = [old |-> 0, new |-> 0] /\ clrOverlap = FALSE /\ raised = FALSE /\ bad = {}
 
 (* ------------------------------------------------------------------------------------------ *)
 (* helpers                                                                                      *)
@@ -162,6 +163,7 @@ SetBegin(c, k, cost, ttl) ==      \* clock read, store.Update critical section, 
          present == e # NULL /\ ConfOK(q, e.conf)
          updated == present /\ v \notin RefuseVals
      IN /\ nextVal' = nextVal + 1 /\ ops' = ops + 1
+        /\ refusedRw' = (refusedRw \/ (present /\ ~updated /\ e.exp # exp))
         /\ valKey' = [valKey EXCEPT ![v] = k]
         /\ IF updated
              THEN /\ store' = [store EXCEPT ![h] = [val |-> v, exp |-> exp, conf |-> q]]
@@ -194,7 +196,7 @@ SetSend(c) ==                     \* select { case c.setBuf <- i: ... default: .
   /\ UNCHANGED <<store, em, lastCleaned, pol, used, maxCost, door, cnt, sendq, apc, areg, sweepQ, 
                  sweepNow, creg, now, tickPending, running, stopq, closed, nextVal, ops, exitCnt, 
                  evictCnt, rejectCnt, valKey, delOblig, waitCover, mustMiss, clearOwed, gets, zeroVictim, 
-                 rejVict, swSkip, lowered, swept0, lastUpd, clrOverlap, raised, bad>>
+                 rejVict, refusedRw, swSkip, lowered, swept0, lastUpd, clrOverlap, raised, bad>>
 
 (* ------------------------------------------------------------------------------------------ *)
 (* Del                                                                                          *)
@@ -214,7 +216,7 @@ DelBegin(c, k) ==                 \* store.Del critical section, onExit(prev)
   /\ UNCHANGED <<lastCleaned, pol, used, maxCost, door, cnt, buf, sendq, apc, areg, sweepQ, sweepNow, now, 
                  tickPending, running, stopq, closed, met, nextVal, evictCnt, rejectCnt, accepted, 
                  refused, valKey, delOblig, waitCover, mustMiss, clearOwed, gets, dropped, zeroVictim, 
-                 rejVict, swSkip, lowered, swept0, lastUpd, raised, bad>>
+                 rejVict, refusedRw, swSkip, lowered, swept0, lastUpd, raised, bad>>
 
 \* history bookkeeping at the return of Del(k) by client c (a Set of k in flight is concurrent with
 \* the Del and therefore not "earlier")
@@ -234,7 +236,8 @@ DelSend(c) ==                     \* c.setBuf <- tombstone  (blocking send)
   /\ UNCHANGED <<store, em, lastCleaned, pol, used, maxCost, door, cnt, apc, areg, sweepQ, sweepNow, creg, 
                  now, tickPending, running, stopq, closed, met, nextVal, ops, exitCnt, evictCnt, 
                  rejectCnt, accepted, refused, valKey, waitCover, mustMiss, clearOwed, gets, dropped, 
-                 zeroVictim, rejVict, swSkip, lowered, swept0, lastUpd, clrOverlap, raised, bad>>
+                 zeroVictim, rejVict, refusedRw, swSkip, lowered, swept0, lastUpd, clrOverlap, raised, 
+                 bad>>
 
 (* ------------------------------------------------------------------------------------------ *)
 (* Wait                                                                                         *)
@@ -251,7 +254,7 @@ WaitCall(c) ==                    \* c.setBuf <- marker (blocking), then <-wait
   /\ UNCHANGED <<store, em, lastCleaned, pol, used, maxCost, door, cnt, apc, areg, sweepQ, sweepNow, now, 
                  tickPending, running, stopq, closed, met, nextVal, exitCnt, evictCnt, rejectCnt, 
                  accepted, refused, valKey, delOblig, mustMiss, clearOwed, gets, dropped, zeroVictim, 
-                 rejVict, swSkip, lowered, swept0, lastUpd, raised, bad>>
+                 rejVict, refusedRw, swSkip, lowered, swept0, lastUpd, raised, bad>>
 
 (* A receive from setBuf (by the applier or by Clear's drain loop) removes the head and, as Go's
    channel does, moves the item of the first blocked sender into the buffer in the same step.
@@ -283,7 +286,7 @@ Get(c, k) ==                      \* getBuf.Push (frequency), store.get, hit/mis
   /\ UNCHANGED <<store, em, lastCleaned, pol, used, maxCost, buf, sendq, apc, areg, sweepQ, sweepNow, pc, 
                  creg, now, tickPending, running, stopq, closed, nextVal, exitCnt, evictCnt, rejectCnt, 
                  accepted, refused, valKey, delOblig, waitCover, mustMiss, clearOwed, dropped, zeroVictim, 
-                 rejVict, swSkip, lowered, swept0, lastUpd, raised>>
+                 rejVict, refusedRw, swSkip, lowered, swept0, lastUpd, raised>>
 
 GetTTL(c, k) ==                   \* store.Get, store.Expiration, clock (no hook between the reads:
   /\ pc[c] = "idle" /\ ops < MaxOps /\ ~Closing /\ "gettl" \in Ops  \* one step at the grain of the gates)
@@ -291,8 +294,8 @@ GetTTL(c, k) ==                   \* store.Get, store.Expiration, clock (no hook
   /\ UNCHANGED <<store, em, lastCleaned, pol, used, maxCost, door, cnt, buf, sendq, apc, areg, sweepQ, 
                  sweepNow, pc, creg, now, tickPending, running, stopq, closed, met, nextVal, exitCnt, 
                  evictCnt, rejectCnt, accepted, refused, valKey, delOblig, waitCover, mustMiss, clearOwed, 
-                 gets, dropped, zeroVictim, rejVict, swSkip, lowered, swept0, lastUpd, clrOverlap, raised, 
-                 bad>>
+                 gets, dropped, zeroVictim, rejVict, refusedRw, swSkip, lowered, swept0, lastUpd, 
+                 clrOverlap, raised, bad>>
 
 Iter(c) ==                        \* IterValues (read only; one step in the model)
   /\ pc[c] = "idle" /\ CanCall /\ "iter" \in Ops
@@ -300,8 +303,8 @@ Iter(c) ==                        \* IterValues (read only; one step in the mode
   /\ UNCHANGED <<store, em, lastCleaned, pol, used, maxCost, door, cnt, buf, sendq, apc, areg, sweepQ, 
                  sweepNow, pc, creg, now, tickPending, running, stopq, closed, met, nextVal, exitCnt, 
                  evictCnt, rejectCnt, accepted, refused, valKey, delOblig, waitCover, mustMiss, clearOwed, 
-                 gets, dropped, zeroVictim, rejVict, swSkip, lowered, swept0, lastUpd, clrOverlap, raised, 
-                 bad>>
+                 gets, dropped, zeroVictim, rejVict, refusedRw, swSkip, lowered, swept0, lastUpd, 
+                 clrOverlap, raised, bad>>
 
 SetMaxCost(c, m) ==
   /\ pc[c] = "idle" /\ ops < MaxOps /\ ~Closing /\ "maxcost" \in Ops
@@ -310,7 +313,8 @@ SetMaxCost(c, m) ==
   /\ UNCHANGED <<store, em, lastCleaned, pol, used, door, cnt, buf, sendq, apc, areg, sweepQ, sweepNow, 
                  pc, creg, now, tickPending, running, stopq, closed, met, nextVal, exitCnt, evictCnt, 
                  rejectCnt, accepted, refused, valKey, delOblig, waitCover, mustMiss, clearOwed, gets, 
-                 dropped, zeroVictim, rejVict, swSkip, lowered, swept0, lastUpd, clrOverlap, bad>>
+                 dropped, zeroVictim, rejVict, refusedRw, swSkip, lowered, swept0, lastUpd, clrOverlap, 
+                 bad>>
 
 (* ------------------------------------------------------------------------------------------ *)
 (* applier: policy.Add                                                                          *)
@@ -402,7 +406,8 @@ AppDequeue ==      \* receive from setBuf, evaluate cost, policy critical sectio
                /\ UNCHANGED <<mustMiss, bad, raised, lowered, zeroVictim, rejVict>>
   /\ UNCHANGED <<store, em, lastCleaned, maxCost, door, cnt, sweepQ, sweepNow, creg, now, tickPending, 
                  running, stopq, closed, nextVal, ops, exitCnt, evictCnt, rejectCnt, accepted, refused, 
-                 valKey, waitCover, clearOwed, gets, dropped, swSkip, swept0, lastUpd, clrOverlap>>
+                 valKey, waitCover, clearOwed, gets, dropped, refusedRw, swSkip, swept0, lastUpd, 
+                 clrOverlap>>
 
 AfterItem == IF areg.victims # <<>> THEN "victims" ELSE "idle"
 
@@ -418,7 +423,8 @@ AppStoreSet ==     \* lockedMap.Set under the shard lock, keyAdd metric
   /\ UNCHANGED <<lastCleaned, pol, used, maxCost, door, cnt, buf, sendq, areg, sweepQ, sweepNow, pc, creg, 
                  now, tickPending, running, stopq, closed, nextVal, ops, exitCnt, evictCnt, rejectCnt, 
                  accepted, refused, valKey, delOblig, waitCover, mustMiss, clearOwed, gets, dropped, 
-                 zeroVictim, rejVict, swSkip, lowered, swept0, lastUpd, clrOverlap, raised, bad>>
+                 zeroVictim, rejVict, refusedRw, swSkip, lowered, swept0, lastUpd, clrOverlap, raised, 
+                 bad>>
 
 AppReject ==       \* onReject(i) -> OnReject, OnExit
   /\ apc = "new_rej"
@@ -428,7 +434,8 @@ AppReject ==       \* onReject(i) -> OnReject, OnExit
   /\ UNCHANGED <<store, em, lastCleaned, pol, used, maxCost, door, cnt, buf, sendq, areg, sweepQ, 
                  sweepNow, pc, creg, now, tickPending, running, stopq, closed, met, nextVal, ops, 
                  evictCnt, accepted, refused, valKey, delOblig, waitCover, mustMiss, clearOwed, gets, 
-                 dropped, zeroVictim, rejVict, swSkip, lowered, swept0, lastUpd, clrOverlap, raised, bad>>
+                 dropped, zeroVictim, rejVict, refusedRw, swSkip, lowered, swept0, lastUpd, clrOverlap, 
+                 raised, bad>>
 
 AppVictim ==       \* store.Del(victim, 0) + onEvict
   /\ apc = "victims"
@@ -442,7 +449,7 @@ AppVictim ==       \* store.Del(victim, 0) + onEvict
   /\ UNCHANGED <<lastCleaned, pol, used, maxCost, door, cnt, buf, sendq, sweepQ, sweepNow, pc, creg, now, 
                  tickPending, running, stopq, closed, met, nextVal, ops, rejectCnt, accepted, refused, 
                  valKey, delOblig, waitCover, mustMiss, clearOwed, gets, dropped, zeroVictim, rejVict, 
-                 swSkip, lowered, swept0, lastUpd, clrOverlap, raised, bad>>
+                 refusedRw, swSkip, lowered, swept0, lastUpd, clrOverlap, raised, bad>>
 
 AppDelStore ==     \* store.Del(key, conflict) + onExit of a tombstone
   /\ apc = "del_store"
@@ -456,7 +463,8 @@ AppDelStore ==     \* store.Del(key, conflict) + onExit of a tombstone
   /\ UNCHANGED <<lastCleaned, pol, used, maxCost, door, cnt, buf, sendq, areg, sweepQ, sweepNow, pc, creg, 
                  now, tickPending, running, stopq, closed, met, nextVal, ops, evictCnt, rejectCnt, 
                  accepted, refused, valKey, delOblig, waitCover, mustMiss, clearOwed, gets, dropped, 
-                 zeroVictim, rejVict, swSkip, lowered, swept0, lastUpd, clrOverlap, raised, bad>>
+                 zeroVictim, rejVict, refusedRw, swSkip, lowered, swept0, lastUpd, clrOverlap, raised, 
+                 bad>>
 
 (* ------------------------------------------------------------------------------------------ *)
 (* expiry sweep (ticker arm of the applier's select; expirationMap.cleanup)                      *)
@@ -473,8 +481,8 @@ SweepGrab ==       \* under the em lock: take whole buckets, advance the frontie
      /\ apc' = IF grabbed = {} THEN "idle" ELSE "sweep_check"
   /\ UNCHANGED <<store, pol, used, maxCost, door, cnt, buf, sendq, areg, pc, creg, now, running, stopq, 
                  closed, met, nextVal, ops, exitCnt, evictCnt, rejectCnt, accepted, refused, valKey, 
-                 delOblig, waitCover, mustMiss, clearOwed, gets, dropped, zeroVictim, rejVict, swSkip, 
-                 lowered, swept0, lastUpd, clrOverlap, raised, bad>>
+                 delOblig, waitCover, mustMiss, clearOwed, gets, dropped, zeroVictim, rejVict, refusedRw, 
+                 swSkip, lowered, swept0, lastUpd, clrOverlap, raised, bad>>
 
 SweepCheck(x) ==   \* code as it was: store.Expiration under RLock, `expr.After(now)` => skip.
                    \* FixAtomic (repair of F4): store.DelExpired - check and delete under one shard lock
@@ -501,7 +509,7 @@ SweepCheck(x) ==   \* code as it was: store.Expiration under RLock, `expr.After(
   /\ UNCHANGED <<lastCleaned, pol, used, maxCost, door, cnt, buf, sendq, sweepNow, pc, creg, now, 
                  tickPending, running, stopq, closed, met, nextVal, ops, exitCnt, evictCnt, rejectCnt, 
                  accepted, refused, valKey, delOblig, waitCover, mustMiss, clearOwed, gets, dropped, 
-                 zeroVictim, rejVict, lowered, swept0, lastUpd, clrOverlap, raised, bad>>
+                 zeroVictim, rejVict, refusedRw, lowered, swept0, lastUpd, clrOverlap, raised, bad>>
 
 SweepPolDel ==     \* policy.Cost + policy.Del
   /\ apc = "sweep_poldel"
@@ -515,7 +523,7 @@ SweepPolDel ==     \* policy.Cost + policy.Del
   /\ UNCHANGED <<store, em, lastCleaned, maxCost, door, cnt, buf, sendq, areg, sweepQ, sweepNow, pc, creg, 
                  now, tickPending, running, stopq, closed, nextVal, ops, exitCnt, evictCnt, rejectCnt, 
                  accepted, refused, valKey, delOblig, waitCover, mustMiss, clearOwed, gets, dropped, 
-                 zeroVictim, rejVict, swSkip, lowered, lastUpd, clrOverlap, raised, bad>>
+                 zeroVictim, rejVict, refusedRw, swSkip, lowered, lastUpd, clrOverlap, raised, bad>>
 
 SweepStoreDel ==   \* code as it was: store.Del(key, conflict) + onEvict.  FixAtomic: only onEvict is left
   /\ apc = "sweep_storedel"
@@ -534,7 +542,7 @@ SweepStoreDel ==   \* code as it was: store.Del(key, conflict) + onEvict.  FixAt
   /\ UNCHANGED <<lastCleaned, pol, used, maxCost, door, cnt, buf, sendq, areg, sweepQ, sweepNow, pc, creg, 
                  now, tickPending, running, stopq, closed, met, nextVal, ops, rejectCnt, accepted, 
                  refused, valKey, delOblig, waitCover, mustMiss, clearOwed, gets, dropped, zeroVictim, 
-                 rejVict, swSkip, lowered, swept0, lastUpd, clrOverlap, raised>>
+                 rejVict, refusedRw, swSkip, lowered, swept0, lastUpd, clrOverlap, raised>>
 
 Tick ==            \* the clock advances by one tick; the ticker fires (channel of capacity 1)
   /\ now < MaxTime
@@ -542,7 +550,8 @@ Tick ==            \* the clock advances by one tick; the ticker fires (channel 
   /\ UNCHANGED <<store, em, lastCleaned, pol, used, maxCost, door, cnt, buf, sendq, apc, areg, sweepQ, 
                  sweepNow, pc, creg, running, stopq, closed, met, nextVal, ops, exitCnt, evictCnt, 
                  rejectCnt, accepted, refused, valKey, delOblig, waitCover, mustMiss, clearOwed, gets, 
-                 dropped, zeroVictim, rejVict, swSkip, lowered, swept0, lastUpd, clrOverlap, raised, bad>>
+                 dropped, zeroVictim, rejVict, refusedRw, swSkip, lowered, swept0, lastUpd, clrOverlap, 
+                 raised, bad>>
 
 (* ------------------------------------------------------------------------------------------ *)
 (* Clear / Close                                                                                *)
@@ -558,7 +567,7 @@ ClearCall(c, kind) ==   \* the call begins; the client blocks in `c.stop <- stru
   /\ UNCHANGED <<store, em, lastCleaned, pol, used, maxCost, door, cnt, buf, sendq, apc, areg, sweepQ, 
                  sweepNow, now, tickPending, running, closed, met, nextVal, exitCnt, evictCnt, rejectCnt, 
                  accepted, refused, valKey, delOblig, waitCover, mustMiss, gets, dropped, zeroVictim, 
-                 rejVict, swSkip, lowered, swept0, lastUpd, raised, bad>>
+                 rejVict, refusedRw, swSkip, lowered, swept0, lastUpd, raised, bad>>
 
 ClearStop(c) ==         \* the applier takes the stop arm, signals done and exits
   /\ pc[c] = "clr_stop" /\ running /\ apc = "idle" /\ stopq # <<>> /\ Head(stopq) = c
@@ -567,7 +576,8 @@ ClearStop(c) ==         \* the applier takes the stop arm, signals done and exit
   /\ UNCHANGED <<store, em, lastCleaned, pol, used, maxCost, door, cnt, buf, sendq, apc, areg, sweepQ, 
                  sweepNow, creg, now, tickPending, closed, met, nextVal, ops, exitCnt, evictCnt, 
                  rejectCnt, accepted, refused, valKey, delOblig, waitCover, mustMiss, clearOwed, gets, 
-                 dropped, zeroVictim, rejVict, swSkip, lowered, swept0, lastUpd, clrOverlap, raised, bad>>
+                 dropped, zeroVictim, rejVict, refusedRw, swSkip, lowered, swept0, lastUpd, clrOverlap, 
+                 raised, bad>>
 
 \* everything Clear's drain loop receives: the buffer, then the items of the blocked senders
 DrainItems == buf \o [i \in 1..Len(sendq) |-> creg[sendq[i]]]
@@ -592,7 +602,7 @@ ClearDrain(c) ==        \* the drain loop: markers closed, non-update items pass
   /\ UNCHANGED <<store, em, lastCleaned, pol, used, maxCost, door, cnt, apc, areg, sweepQ, sweepNow, creg, 
                  now, tickPending, running, stopq, closed, met, nextVal, ops, rejectCnt, accepted, 
                  refused, valKey, waitCover, mustMiss, clearOwed, gets, dropped, zeroVictim, rejVict, 
-                 swSkip, lowered, swept0, lastUpd, clrOverlap, raised, bad>>
+                 refusedRw, swSkip, lowered, swept0, lastUpd, clrOverlap, raised, bad>>
 
 ClearPolicy(c) ==       \* policy.Clear under the policy lock
   /\ pc[c] = "clr_policy"
@@ -602,7 +612,8 @@ ClearPolicy(c) ==       \* policy.Clear under the policy lock
   /\ UNCHANGED <<store, em, lastCleaned, maxCost, buf, sendq, apc, areg, sweepQ, sweepNow, creg, now, 
                  tickPending, running, stopq, closed, met, nextVal, ops, exitCnt, evictCnt, rejectCnt, 
                  accepted, refused, valKey, delOblig, waitCover, mustMiss, clearOwed, gets, dropped, 
-                 zeroVictim, rejVict, swSkip, lowered, swept0, lastUpd, clrOverlap, raised, bad>>
+                 zeroVictim, rejVict, refusedRw, swSkip, lowered, swept0, lastUpd, clrOverlap, raised, 
+                 bad>>
 
 ClearStore(c) ==        \* store.Clear(onEvict) for every shard, expiryMap.clear
   /\ pc[c] = "clr_store"
@@ -615,7 +626,7 @@ ClearStore(c) ==        \* store.Clear(onEvict) for every shard, expiryMap.clear
   /\ UNCHANGED <<pol, used, maxCost, door, cnt, buf, sendq, apc, areg, sweepQ, sweepNow, creg, now, 
                  tickPending, running, stopq, closed, met, nextVal, ops, rejectCnt, accepted, refused, 
                  valKey, delOblig, waitCover, mustMiss, clearOwed, gets, dropped, zeroVictim, rejVict, 
-                 swSkip, lowered, swept0, lastUpd, clrOverlap, raised, bad>>
+                 refusedRw, swSkip, lowered, swept0, lastUpd, clrOverlap, raised, bad>>
 
 ClearRestart(c) ==      \* Metrics.Clear, go processItems(); Clear returns
   /\ pc[c] = "clr_fin"
@@ -632,7 +643,7 @@ ClearRestart(c) ==      \* Metrics.Clear, go processItems(); Clear returns
   /\ UNCHANGED <<store, em, lastCleaned, pol, used, maxCost, door, cnt, buf, sendq, apc, areg, sweepQ, 
                  sweepNow, creg, now, tickPending, stopq, closed, nextVal, ops, exitCnt, evictCnt, 
                  rejectCnt, accepted, refused, valKey, delOblig, waitCover, mustMiss, clearOwed, 
-                 zeroVictim, rejVict, swSkip, lowered, swept0, lastUpd, clrOverlap, raised>>
+                 zeroVictim, rejVict, refusedRw, swSkip, lowered, swept0, lastUpd, clrOverlap, raised>>
 
 CloseFinish(c) ==       \* second stop/done rendezvous, channels closed, policy goroutine stopped
   /\ pc[c] = "cls_stop" /\ running /\ apc = "idle"
@@ -641,7 +652,8 @@ CloseFinish(c) ==       \* second stop/done rendezvous, channels closed, policy 
   /\ UNCHANGED <<store, em, lastCleaned, pol, used, maxCost, door, cnt, buf, sendq, apc, areg, sweepQ, 
                  sweepNow, creg, now, tickPending, stopq, met, nextVal, ops, exitCnt, evictCnt, rejectCnt, 
                  accepted, refused, valKey, delOblig, waitCover, mustMiss, clearOwed, gets, dropped, 
-                 zeroVictim, rejVict, swSkip, lowered, swept0, lastUpd, clrOverlap, raised, bad>>
+                 zeroVictim, rejVict, refusedRw, swSkip, lowered, swept0, lastUpd, clrOverlap, raised, 
+                 bad>>
 
 ClosedOp(c, op) ==      \* any call on a closed cache is a no-op
   /\ closed /\ pc[c] = "idle" /\ ops < MaxOps
@@ -650,8 +662,8 @@ ClosedOp(c, op) ==      \* any call on a closed cache is a no-op
   /\ UNCHANGED <<store, em, lastCleaned, pol, used, maxCost, door, cnt, buf, sendq, apc, areg, sweepQ, 
                  sweepNow, pc, creg, now, tickPending, running, stopq, closed, met, nextVal, exitCnt, 
                  evictCnt, rejectCnt, accepted, refused, valKey, delOblig, waitCover, mustMiss, clearOwed, 
-                 gets, dropped, zeroVictim, rejVict, swSkip, lowered, swept0, lastUpd, clrOverlap, raised, 
-                 bad>>
+                 gets, dropped, zeroVictim, rejVict, refusedRw, swSkip, lowered, swept0, lastUpd, 
+                 clrOverlap, raised, bad>>
 
 (* ------------------------------------------------------------------------------------------ *)
 Next ==
